@@ -147,3 +147,554 @@ Proof.
     rewrite where_map. reflexivity.
   - rewrite (ids_map p) at 1. rewrite map_map. reflexivity.
 Qed.
+
+(** ** members_position *)
+
+Lemma positions_loop_length ids counter : length (positions_loop ids counter) = length ids.
+Proof. revert counter; induction ids; intros c; cbn; auto. Qed.
+
+Lemma positions_loop_nth (xi : nat -> nat) L1 i L2 counter :
+  xi i < length counter ->
+  nth (length L1) (positions_loop (map xi (L1 ++ i :: L2)) counter) 0 =
+  nth (xi i) counter 0 + length (filter (fun j => xi j =? xi i) L1).
+Proof.
+  revert counter; induction L1 as [|a L1 IH]; intros counter Hi.
+  - cbn. lia.
+  - cbn [app map positions_loop length nth filter].
+    rewrite IH by (now rewrite upd_length). rewrite nth_upd.
+    destruct (xi a =? xi i) eqn:E.
+    + apply Nat.eqb_eq in E. rewrite E, Nat.eqb_refl.
+      apply Nat.ltb_lt in Hi. rewrite Hi. cbn [andb length]. lia.
+    + rewrite Nat.eqb_sym, E. cbn [andb]. reflexivity.
+Qed.
+
+Lemma seq_split_at n i : i < n -> seq 0 n = seq 0 i ++ i :: seq (S i) (n - S i).
+Proof.
+  intros H. replace n with (i + S (n - S i)) at 1 by lia. rewrite seq_app. reflexivity.
+Qed.
+
+Lemma members_position_ok p :
+  0 < npersons p ->
+  members_position p = Ok (map (earlier_in_group p) (seq 0 (npersons p))).
+Proof.
+  intros Hn. unfold members_position, max_plus_one.
+  destruct (g_ids p) as [|e0 t] eqn:Eids; [unfold npersons in Hn; rewrite Eids in Hn; cbn in Hn; lia|].
+  rewrite <- Eids. cbn [bind]. f_equal.
+  apply map_seq_ext_nth with (d := 0).
+  - apply positions_loop_length.
+  - intros i Hi. rewrite (ids_map p) at 1. rewrite (seq_split_at _ i Hi).
+    pose proof (positions_loop_nth (group_of p) (seq 0 i) i (seq (S i) (npersons p - S i))
+                  (full (S (list_max (g_ids p))) 0)) as P.
+    rewrite seq_length in P. rewrite P.
+    + assert (Hz : forall k n, nth k (full n 0) 0 = 0).
+      { intros k n. unfold full. revert k; induction n; intros [|k]; cbn; auto. }
+      rewrite Hz. reflexivity.
+    + rewrite full_length. apply Nat.lt_succ_r, list_max_ge. unfold group_of. apply nth_In, Hi.
+Qed.
+
+(** ** members of a group and positions *)
+
+Lemma in_members p g i : In i (members p g) <-> i < npersons p /\ group_of p i = g.
+Proof.
+  unfold members. rewrite filter_In, in_seq, Nat.eqb_eq. intuition lia.
+Qed.
+
+Lemma members_NoDup p g : NoDup (members p g).
+Proof. apply NoDup_filter, seq_NoDup. Qed.
+
+Lemma members_split p i :
+  i < npersons p ->
+  members p (group_of p i) =
+  filter (fun j => group_of p j =? group_of p i) (seq 0 i) ++
+  i :: filter (fun j => group_of p j =? group_of p i) (seq (S i) (npersons p - S i)).
+Proof.
+  intros Hi. unfold members. rewrite (seq_split_at _ i Hi) at 1.
+  rewrite filter_app. cbn [filter]. rewrite Nat.eqb_refl. reflexivity.
+Qed.
+
+Lemma nth_pos_members p i :
+  i < npersons p -> nth_error (members p (group_of p i)) (earlier_in_group p i) = Some i.
+Proof.
+  intros Hi. rewrite (members_split p i Hi). unfold earlier_in_group.
+  rewrite nth_error_app2 by lia. rewrite Nat.sub_diag. reflexivity.
+Qed.
+
+Lemma pos_of_nth p g k i : nth_error (members p g) k = Some i -> earlier_in_group p i = k.
+Proof.
+  intros H. assert (Hin : In i (members p g)) by (eapply nth_error_In; eauto).
+  apply in_members in Hin as [Hi Hg]. subst g.
+  pose proof (nth_pos_members p i Hi) as P.
+  pose proof (proj1 (NoDup_nth_error _) (members_NoDup p (group_of p i))) as ND.
+  apply ND; [|congruence].
+  apply nth_error_Some. congruence.
+Qed.
+
+Lemma pos_lt_size p i : i < npersons p -> earlier_in_group p i < length (members p (group_of p i)).
+Proof. intros Hi. apply nth_error_Some. rewrite nth_pos_members by exact Hi. discriminate. Qed.
+
+(** ** selecting at most one member per group through the sorted members map
+
+    The shape shared by value_nth_person and value_from_person:
+        result[group_mask] = array[members_map][sel[members_map]]
+    where at most one member of each group satisfies [sel]. *)
+
+Section Select.
+  Variable p : gpop.
+  Hypothesis W : wf_pop p.
+  Variable mm : list nat.
+  Hypothesis MM : sorting_perm_nat (g_ids p) mm.
+  Variable sel : nat -> bool.
+  Hypothesis sel_inj : forall i j, i < npersons p -> j < npersons p ->
+    sel i = true -> sel j = true -> group_of p i = group_of p j -> i = j.
+
+  Lemma mm_in i : In i mm <-> i < npersons p.
+  Proof.
+    destruct MM as [P _]. split; intros H.
+    - apply (Permutation_in _ P) in H. apply in_seq in H. unfold npersons. lia.
+    - apply (Permutation_in _ (Permutation_sym P)). apply in_seq. unfold npersons in H. lia.
+  Qed.
+
+  Lemma mm_NoDup : NoDup mm.
+  Proof. destruct MM as [P _]. eapply Permutation_NoDup; [apply Permutation_sym, P|apply seq_NoDup]. Qed.
+
+  Lemma mm_Forall {A} (a : list A) : length a = npersons p -> Forall (fun i => i < length a) mm.
+  Proof. intros H. rewrite Forall_forall. intros i Hi. apply mm_in in Hi. lia. Qed.
+
+  Lemma sel_groups_sorted : StronglySorted lt (map (group_of p) (filter sel mm)).
+  Proof.
+    apply StronglySorted_map.
+    assert (S0 : StronglySorted (fun a b => group_of p a <= group_of p b) mm) by apply MM.
+    pose proof mm_NoDup as ND.
+    assert (IN : forall i, In i mm -> i < npersons p) by (intros; now apply mm_in).
+    clear MM. induction S0 as [|a l Hs IH Hf]; cbn [filter]; [constructor|].
+    inversion ND as [|? ? Hna ND']; subst.
+    destruct (sel a) eqn:Ea.
+    - constructor; [apply IH; [exact ND'|intros; apply IN; now right]|].
+      rewrite Forall_forall in *. intros b Hb. apply filter_In in Hb as [Hb Eb].
+      assert (group_of p a <= group_of p b) by auto.
+      assert (group_of p a <> group_of p b).
+      { intros E. apply Hna. rewrite (sel_inj a b); auto.
+        - apply IN; now left.
+        - apply IN; now right. }
+      lia.
+    - apply IH; [exact ND'|intros; apply IN; now right].
+  Qed.
+
+  Definition gsel (g : nat) : bool := existsb sel (members p g).
+
+  Lemma sel_groups :
+    map (group_of p) (filter sel mm) = filter gsel (seq 0 (g_count p)).
+  Proof.
+    apply sorted_lt_ext.
+    - apply sel_groups_sorted.
+    - apply StronglySorted_filter, StronglySorted_lt_seq.
+    - intros g. rewrite in_map_iff, filter_In, in_seq. unfold gsel. rewrite existsb_exists.
+      split.
+      + intros (i & <- & Hi). apply filter_In in Hi as [Hi Es]. apply mm_in in Hi.
+        split; [split; [lia|apply wf_group_lt; assumption]|].
+        exists i. split; [apply in_members; auto|exact Es].
+      + intros (_ & i & Hi & Es). apply in_members in Hi as [Hi Hg].
+        exists i. split; [exact Hg|]. apply filter_In. split; [now apply mm_in|exact Es].
+  Qed.
+
+  Lemma sel_find i : In i (filter sel mm) -> find sel (members p (group_of p i)) = Some i.
+  Proof.
+    intros Hi. apply filter_In in Hi as [Hi Es]. apply mm_in in Hi.
+    destruct (find sel (members p (group_of p i))) as [j|] eqn:F.
+    - apply find_some in F as [Hj Ej]. apply in_members in Hj as [Hj Hg].
+      f_equal. apply sel_inj; auto.
+    - exfalso. pose proof (find_none _ _ F i) as N.
+      rewrite N in Es; [discriminate|]. apply in_members; auto.
+  Qed.
+
+  (** The assignment, for any array and default. *)
+  Lemma select_assign {A} (array : list A) (d : A) (mask : list bool) :
+    length array = npersons p ->
+    mask = map gsel (seq 0 (g_count p)) ->
+    mask_assign (full (g_count p) d) mask
+                (map (fun i => nth i array d) (filter sel mm)) =
+    Ok (map (fun g => match find sel (members p g) with
+                      | Some i => nth i array d
+                      | None => d
+                      end) (seq 0 (g_count p))).
+  Proof.
+    intros Hl ->.
+    set (h := fun g => match find sel (members p g) with Some i => nth i array d | None => d end).
+    assert (E : map (fun i => nth i array d) (filter sel mm) =
+                map h (filter gsel (seq 0 (g_count p)))).
+    { rewrite <- sel_groups, map_map. apply map_ext_in. intros i Hi.
+      unfold h. now rewrite sel_find. }
+    rewrite E, mask_assign_map. f_equal. apply map_ext. intros g.
+    unfold h, gsel. destruct (existsb sel (members p g)) eqn:Ex; [reflexivity|].
+    destruct (find sel (members p g)) as [i|] eqn:F; [|reflexivity].
+    apply find_some in F as [Hi Es].
+    assert (existsb sel (members p g) = true) by (apply existsb_exists; eauto). congruence.
+  Qed.
+End Select.
+
+(** ** value_nth_person *)
+
+Definition at_pos (p : gpop) (n : nat) (i : nat) : bool := earlier_in_group p i =? n.
+
+Lemma at_pos_inj p n i j :
+  i < npersons p -> j < npersons p -> at_pos p n i = true -> at_pos p n j = true ->
+  group_of p i = group_of p j -> i = j.
+Proof.
+  unfold at_pos. intros Hi Hj Ei Ej Hg. apply Nat.eqb_eq in Ei, Ej.
+  pose proof (nth_pos_members p i Hi) as Pi. pose proof (nth_pos_members p j Hj) as Pj.
+  rewrite Ei in Pi. rewrite Ej, <- Hg in Pj. congruence.
+Qed.
+
+Lemma find_at_pos p n g : find (at_pos p n) (members p g) = nth_error (members p g) n.
+Proof.
+  destruct (nth_error (members p g) n) as [i|] eqn:E.
+  - pose proof (pos_of_nth p g n i E) as Pi.
+    destruct (find (at_pos p n) (members p g)) as [j|] eqn:F.
+    + apply find_some in F as [Hj Ej]. apply in_members in Hj as [Hj Hg]. subst g.
+      unfold at_pos in Ej. apply Nat.eqb_eq in Ej.
+      pose proof (nth_pos_members p j Hj) as Pj. congruence.
+    + pose proof (find_none _ _ F i (nth_error_In _ _ E)) as N.
+      unfold at_pos in N. rewrite Pi, Nat.eqb_refl in N. discriminate.
+  - destruct (find (at_pos p n) (members p g)) as [j|] eqn:F; [|reflexivity].
+    apply find_some in F as [Hj Ej]. apply in_members in Hj as [Hj Hg]. subst g.
+    unfold at_pos in Ej. apply Nat.eqb_eq in Ej.
+    pose proof (nth_pos_members p j Hj) as Pj. congruence.
+Qed.
+
+Lemma existsb_at_pos p n g : existsb (at_pos p n) (members p g) = (n <? length (members p g)).
+Proof.
+  destruct (n <? length (members p g)) eqn:E.
+  - apply Nat.ltb_lt in E. destruct (nth_error (members p g) n) as [i|] eqn:N.
+    + apply existsb_exists. exists i. split; [eapply nth_error_In; eauto|].
+      unfold at_pos. rewrite (pos_of_nth p g n i N). apply Nat.eqb_refl.
+    + apply nth_error_None in N. lia.
+  - apply Nat.ltb_ge in E. destruct (existsb (at_pos p n) (members p g)) eqn:X; [|reflexivity].
+    apply existsb_exists in X as (i & Hi & Ei). apply in_members in Hi as [Hi Hg]. subst g.
+    unfold at_pos in Ei. apply Nat.eqb_eq in Ei. pose proof (pos_lt_size p i Hi). lia.
+Qed.
+
+Lemma value_nth_person_ok {A} mm p n (array : list A) d :
+  wf_pop p -> sorting_perm_nat (g_ids p) mm -> length array = npersons p -> 0 < npersons p ->
+  value_nth_person_with mm p (Z.of_nat n) array d =
+  Ok (map (fun g => match nth_error (members p g) n with
+                    | Some i => nth i array d
+                    | None => d
+                    end) (seq 0 (g_count p))).
+Proof.
+  intros W MM Hl Hn. unfold value_nth_person_with, check_size.
+  rewrite Hl, Nat.eqb_refl, (members_position_ok p Hn), (nb_persons_ok p None W). cbn [bind].
+  rewrite (take_map array d) by (eapply mm_Forall; eauto). cbn [bind].
+  rewrite (take_map _ 0) by (eapply mm_Forall; eauto; now rewrite map_length, seq_length).
+  cbn [bind]. rewrite !map_map, mask_select_map.
+  rewrite (filter_ext_in _ (at_pos p n)).
+  2:{ intros i Hi. apply (mm_in p mm MM) in Hi. rewrite nth_map_seq by exact Hi.
+      unfold at_pos. destruct (Nat.eqb_spec (earlier_in_group p i) n) as [->|Ne].
+      - apply Z.eqb_refl.
+      - apply Z.eqb_neq. lia. }
+  rewrite (select_assign p W mm MM (at_pos p n) (at_pos_inj p n) array d); [|exact Hl|].
+  2:{ apply map_ext. intros g. unfold gsel. rewrite existsb_at_pos, members_with_role_None.
+      destruct (Nat.ltb_spec n (length (members p g))); [apply Z.ltb_lt|apply Z.ltb_ge]; lia. }
+  f_equal. apply map_ext. intros g. now rewrite find_at_pos.
+Qed.
+
+(** ** value_from_person *)
+
+Lemma existsb_ext_in {A} (f g : A -> bool) l :
+  (forall x, In x l -> f x = g x) -> existsb f l = existsb g l.
+Proof.
+  induction l as [|a l IH]; intros H; [reflexivity|]. cbn.
+  rewrite (H a) by now left. rewrite IH; [reflexivity|]. intros; apply H; now right.
+Qed.
+
+Lemma find_hd_filter {A} (f : A -> bool) l : find f l = hd_error (filter f l).
+Proof. induction l as [|a l IH]; [reflexivity|]. cbn. destruct (f a); [reflexivity|exact IH]. Qed.
+
+Lemma le1_eq {A} (l : list A) a b : length l <= 1 -> In a l -> In b l -> a = b.
+Proof.
+  destruct l as [|x [|y l]]; cbn; try tauto; try lia.
+  intros _ [<-|[]] [<-|[]]. reflexivity.
+Qed.
+
+Lemma in_role_inj p r :
+  wf_pop p -> role_unique_in p r ->
+  forall i j, i < npersons p -> j < npersons p ->
+    in_role p (Some r) i = true -> in_role p (Some r) j = true ->
+    group_of p i = group_of p j -> i = j.
+Proof.
+  intros W U i j Hi Hj Ei Ej Hg.
+  apply (le1_eq (members_with_role p (Some r) (group_of p i))).
+  - apply U. apply wf_group_lt; assumption.
+  - apply filter_In. split; [apply in_members; auto|exact Ei].
+  - apply filter_In. split; [apply in_members; auto|exact Ej].
+Qed.
+
+Lemma value_from_person_ok {A} mm p (array : list A) r d :
+  wf_pop p -> sorting_perm_nat (g_ids p) mm -> length array = npersons p ->
+  role_max (g_entity p) r = Some 1 -> role_unique_in p r ->
+  value_from_person_with mm p array r d =
+  Ok (map (fun g => match members_with_role p (Some r) g with
+                    | [i] => nth i array d
+                    | _ => d
+                    end) (seq 0 (g_count p))).
+Proof.
+  intros W MM Hl Hmax U. unfold value_from_person_with, check_size.
+  rewrite Hmax, Hl, Nat.eqb_refl. cbn [bind].
+  rewrite (has_role_map p r W).
+  rewrite any_ok; [|exact W|now rewrite !map_length, seq_length|].
+  2:{ rewrite Forall_forall. intros v Hv. apply in_map_iff in Hv as (b & <- & _). destruct b; cbn; lia. }
+  cbn [bind].
+  rewrite (take_map array d) by (eapply mm_Forall; eauto). cbn [bind].
+  rewrite (take_map _ false) by (eapply mm_Forall; eauto; now rewrite map_length, seq_length).
+  cbn [bind]. rewrite mask_select_map.
+  rewrite (filter_ext_in _ (in_role p (Some r))).
+  2:{ intros i Hi. apply (mm_in p mm MM) in Hi. now rewrite nth_map_seq by exact Hi. }
+  rewrite (select_assign p W mm MM (in_role p (Some r)) (in_role_inj p r W U) array d); [|exact Hl|].
+  2:{ apply map_ext. intros g. unfold gsel. rewrite members_with_role_None.
+      apply existsb_ext_in. intros i Hi. apply in_members in Hi as [Hi _].
+      rewrite map_map, nth_map_seq by exact Hi. now destruct (in_role p (Some r) i). }
+  f_equal. apply map_ext_in. intros g Hg. apply in_seq in Hg.
+  rewrite find_hd_filter. fold (members_with_role p (Some r) g).
+  pose proof (U g ltac:(lia)) as Ug.
+  destruct (members_with_role p (Some r) g) as [|x [|y l]]; cbn in *; try reflexivity. lia.
+Qed.
+
+(** ** reduce: all / max / min *)
+
+Lemma zip_with_map {A} (f : A -> A -> A) (a b : nat -> A) L :
+  zip_with f (map a L) (map b L) = map (fun g => f (a g) (b g)) L.
+Proof. induction L; cbn; congruence. Qed.
+
+Lemma fold_left_ext_in {A B} (F G : A -> B -> A) l a0 :
+  (forall a k, In k l -> F a k = G a k) -> fold_left F l a0 = fold_left G l a0.
+Proof.
+  revert a0; induction l as [|x l IH]; intros a0 H; [reflexivity|]. cbn.
+  rewrite (H a0 x) by now left. apply IH. intros; apply H; now right.
+Qed.
+
+Lemma fold_left_const {A B} (l : list B) (a0 : A) : fold_left (fun a _ => a) l a0 = a0.
+Proof. induction l; cbn; auto. Qed.
+
+Lemma fold_nth_error_gen {A} (f : A -> A -> A) (h : nat -> A) neutral (l : list nat) s a0 :
+  fold_left (fun a k => f a (match nth_error l (k - s) with Some i => h i | None => neutral end))
+            (seq s (length l)) a0 =
+  fold_left (fun a i => f a (h i)) l a0.
+Proof.
+  revert s a0; induction l as [|x l IH]; intros s a0; [reflexivity|].
+  cbn [length seq fold_left]. rewrite Nat.sub_diag. cbn [nth_error].
+  rewrite <- (IH (S s)). apply fold_left_ext_in. intros a k Hk. apply in_seq in Hk.
+  replace (k - s) with (S (k - S s)) by lia. reflexivity.
+Qed.
+
+Lemma fold_filter_neutral {A} (f : A -> A -> A) neutral (c : nat -> bool) (h : nat -> A) l a0 :
+  (forall x, f x neutral = x) ->
+  fold_left (fun a i => f a (if c i then h i else neutral)) l a0 =
+  fold_left (fun a i => f a (h i)) (filter c l) a0.
+Proof.
+  intros N. revert a0; induction l as [|x l IH]; intros a0; [reflexivity|].
+  cbn [fold_left filter]. destruct (c x); cbn [fold_left]; [apply IH|]. rewrite N. apply IH.
+Qed.
+
+Lemma members_size_le_maxpos p g :
+  length (members p g) <= S (list_max (map (earlier_in_group p) (seq 0 (npersons p)))).
+Proof.
+  destruct (length (members p g)) as [|m] eqn:E; [lia|].
+  destruct (nth_error (members p g) m) as [i|] eqn:N.
+  - pose proof (pos_of_nth p g m i N) as P.
+    assert (Hi : In i (members p g)) by (eapply nth_error_In; eauto).
+    apply in_members in Hi as [Hi _].
+    apply le_n_S. rewrite <- P. apply list_max_ge. apply in_map. apply in_seq. lia.
+  - apply nth_error_None in N. lia.
+Qed.
+
+Lemma reduce_ok {A} mm p (array : list A) (f : A -> A -> A) neutral role :
+  wf_pop p -> sorting_perm_nat (g_ids p) mm -> length array = npersons p -> 0 < npersons p ->
+  (forall x, f x neutral = x) ->
+  reduce_with mm p array f neutral role =
+  Ok (map (fun g => fold_left (fun acc i => f acc (nth i array neutral))
+                              (members_with_role p role g) neutral)
+          (seq 0 (g_count p))).
+Proof.
+  intros W MM Hl Hn Neu. unfold reduce_with, check_size.
+  rewrite Hl, Nat.eqb_refl, (members_position_ok p Hn). cbn [bind].
+  set (POS := map (earlier_in_group p) (seq 0 (npersons p))).
+  assert (HB : max_plus_one POS = Ok (S (list_max POS))).
+  { unfold max_plus_one, POS. destruct (npersons p) as [|n]; [lia|]. reflexivity. }
+  rewrite HB. cbn [bind].
+  set (fa := fun i => if in_role p role i then nth i array neutral else neutral).
+  set (FA := match role with Some r => where_ _ _ _ | None => array end).
+  assert (HFA : FA = map fa (seq 0 (npersons p))).
+  { unfold FA, fa. destruct role as [r|].
+    - rewrite (has_role_map p r W). rewrite (arr_map p array neutral Hl) at 1.
+      rewrite (full_as_map (npersons p) neutral (seq 0 (npersons p))) by apply seq_length.
+      now rewrite where_map.
+    - cbn. apply arr_map, Hl. }
+  clearbody FA. subst FA.
+  set (V := fun k g => match nth_error (members p g) k with Some i => fa i | None => neutral end).
+  assert (HV : forall k, value_nth_person_with mm p (Z.of_nat k) (map fa (seq 0 (npersons p))) neutral
+                         = Ok (map (V k) (seq 0 (g_count p)))).
+  { intros k. rewrite value_nth_person_ok; try assumption; [|now rewrite map_length, seq_length].
+    f_equal. apply map_ext. intros g. unfold V.
+    destruct (nth_error (members p g) k) as [i|] eqn:N; [|reflexivity].
+    apply nth_error_In, in_members in N as [Hi _]. now rewrite nth_map_seq. }
+  assert (FOLD : forall ks r0,
+    fold_left (fun acc k => bind acc (fun result =>
+                 bind (value_nth_person_with mm p (Z.of_nat k) (map fa (seq 0 (npersons p))) neutral)
+                      (fun values => Ok (zip_with f result values))))
+              ks (Ok (map r0 (seq 0 (g_count p)))) =
+    Ok (map (fun g => fold_left (fun a k => f a (V k g)) ks (r0 g)) (seq 0 (g_count p)))).
+  { induction ks as [|k ks IH]; intros r0; [reflexivity|].
+    cbn [fold_left bind]. rewrite HV. cbn [bind]. rewrite zip_with_map. apply IH. }
+  rewrite (full_as_map (g_count p) neutral (seq 0 (g_count p))) by apply seq_length.
+  rewrite FOLD. f_equal. apply map_ext. intros g.
+  pose proof (members_size_le_maxpos p g) as LE. fold POS in LE.
+  replace (S (list_max POS)) with (length (members p g) + (S (list_max POS) - length (members p g))) by lia.
+  rewrite seq_app, fold_left_app. cbn [plus].
+  rewrite (fold_left_ext_in _ (fun a _ => a) (seq (length (members p g)) _)).
+  2:{ intros a k Hk. apply in_seq in Hk. unfold V.
+      destruct (nth_error (members p g) k) eqn:N; [|apply Neu].
+      assert (k < length (members p g)) by (apply nth_error_Some; congruence). lia. }
+  rewrite fold_left_const.
+  pose proof (fold_nth_error_gen f fa neutral (members p g) 0 neutral) as F0.
+  rewrite (fold_left_ext_in _ (fun a k => f a (V k g))) in F0
+    by (intros a k _; unfold V; now rewrite Nat.sub_0_r).
+  rewrite F0. unfold fa, members_with_role. apply fold_filter_neutral, Neu.
+Qed.
+
+Lemma fold_left_map {A B C} (F : A -> B -> A) (h : C -> B) l a0 :
+  fold_left F (map h l) a0 = fold_left (fun a x => F a (h x)) l a0.
+Proof. revert a0; induction l; intros a0; cbn; auto. Qed.
+
+Lemma fold_andb_forallb {B} (c : B -> bool) l a :
+  fold_left (fun acc i => acc && c i) l a = a && forallb c l.
+Proof.
+  revert a; induction l as [|x l IH]; intros a; cbn; [now rewrite andb_true_r|].
+  rewrite IH. now rewrite andb_assoc.
+Qed.
+
+Lemma mwr_lt p role g i : In i (members_with_role p role g) -> i < npersons p.
+Proof. intros H. apply filter_In in H as [H _]. now apply in_members in H. Qed.
+
+Lemma all_ok mm p array role :
+  wf_pop p -> sorting_perm_nat (g_ids p) mm -> length array = npersons p -> 0 < npersons p ->
+  all_with mm p array role =
+  Ok (map (fun g => forallb (fun i => truthy (nth i array 0%Z)) (members_with_role p role g))
+          (seq 0 (g_count p))).
+Proof.
+  intros W MM Hl Hn. unfold all_with.
+  rewrite reduce_ok; try assumption; [|now rewrite map_length|apply andb_true_r].
+  f_equal. apply map_ext. intros g.
+  rewrite (fold_left_ext_in _ (fun acc i => acc && truthy (nth i array 0%Z))).
+  - now rewrite fold_andb_forallb.
+  - intros a i Hi. apply mwr_lt in Hi. f_equal.
+    rewrite nth_indep with (d' := truthy 0%Z) by (rewrite map_length; lia).
+    apply (map_nth truthy).
+Qed.
+
+Lemma ext_max_neutral x : ext_max x NInf = x.
+Proof. destruct x; reflexivity. Qed.
+Lemma ext_min_neutral x : ext_min x PInf = x.
+Proof. destruct x; reflexivity. Qed.
+
+Lemma nth_map_Fin array i d : i < length array -> nth i (map Fin array) d = Fin (nth i array 0%Z).
+Proof.
+  intros H. rewrite nth_indep with (d' := Fin 0%Z) by (now rewrite map_length). apply (map_nth Fin).
+Qed.
+
+Lemma max_ok mm p array role :
+  wf_pop p -> sorting_perm_nat (g_ids p) mm -> length array = npersons p -> 0 < npersons p ->
+  max_with mm p array role =
+  Ok (map (fun g => ext_max_list (map (fun i => nth i array 0%Z) (members_with_role p role g)))
+          (seq 0 (g_count p))).
+Proof.
+  intros W MM Hl Hn. unfold max_with.
+  rewrite reduce_ok; try assumption; [|now rewrite map_length|apply ext_max_neutral].
+  f_equal. apply map_ext. intros g. unfold ext_max_list. rewrite fold_left_map.
+  apply fold_left_ext_in. intros a i Hi. apply mwr_lt in Hi. now rewrite nth_map_Fin by lia.
+Qed.
+
+Lemma min_ok mm p array role :
+  wf_pop p -> sorting_perm_nat (g_ids p) mm -> length array = npersons p -> 0 < npersons p ->
+  min_with mm p array role =
+  Ok (map (fun g => ext_min_list (map (fun i => nth i array 0%Z) (members_with_role p role g)))
+          (seq 0 (g_count p))).
+Proof.
+  intros W MM Hl Hn. unfold min_with.
+  rewrite reduce_ok; try assumption; [|now rewrite map_length|apply ext_min_neutral].
+  f_equal. apply map_ext. intros g. unfold ext_min_list. rewrite fold_left_map.
+  apply fold_left_ext_in. intros a i Hi. apply mwr_lt in Hi. now rewrite nth_map_Fin by lia.
+Qed.
+
+(** [ext_min_list] / [ext_max_list] are the greatest lower / least upper bound, attained
+    on a non-empty list, and the neutral element on the empty one (independently of the
+    order in which the fold visits the members). *)
+Lemma fold_zmin_spec l a :
+  (fold_left Z.min l a = a \/ In (fold_left Z.min l a) l) /\ (fold_left Z.min l a <= a)%Z /\
+  forall w, In w l -> (fold_left Z.min l a <= w)%Z.
+Proof.
+  revert a; induction l as [|x l IH]; intros a; cbn [fold_left In].
+  - repeat split; [now left|lia|tauto].
+  - destruct (IH (Z.min a x)) as (H1 & H2 & H3). repeat split.
+    + destruct H1 as [H1|H1]; [|right; right; exact H1].
+      destruct (Z.min_spec a x) as [[_ E]|[_ E]]; rewrite E in *; [now left|right; left; congruence].
+    + lia.
+    + intros w [<-|Hw]; [lia|auto].
+Qed.
+
+Lemma fold_zmax_spec l a :
+  (fold_left Z.max l a = a \/ In (fold_left Z.max l a) l) /\ (a <= fold_left Z.max l a)%Z /\
+  forall w, In w l -> (w <= fold_left Z.max l a)%Z.
+Proof.
+  revert a; induction l as [|x l IH]; intros a; cbn [fold_left In].
+  - repeat split; [now left|lia|tauto].
+  - destruct (IH (Z.max a x)) as (H1 & H2 & H3). repeat split.
+    + destruct H1 as [H1|H1]; [|right; right; exact H1].
+      destruct (Z.max_spec a x) as [[_ E]|[_ E]]; rewrite E in *; [right; left; congruence|now left].
+    + lia.
+    + intros w [<-|Hw]; [lia|auto].
+Qed.
+
+Lemma fold_min_fin l a :
+  fold_left (fun acc v => ext_min acc (Fin v)) l (Fin a) = Fin (fold_left Z.min l a).
+Proof.
+  revert a; induction l as [|x l IH]; intros a; [reflexivity|]. cbn [fold_left].
+  unfold ext_min at 2. cbn [ext_leb]. destruct (Z.leb_spec a x).
+  - rewrite IH. now rewrite Z.min_l by lia.
+  - rewrite IH. now rewrite Z.min_r by lia.
+Qed.
+
+Lemma fold_max_fin l a :
+  fold_left (fun acc v => ext_max acc (Fin v)) l (Fin a) = Fin (fold_left Z.max l a).
+Proof.
+  revert a; induction l as [|x l IH]; intros a; [reflexivity|]. cbn [fold_left].
+  unfold ext_max at 2. cbn [ext_leb]. destruct (Z.leb_spec a x).
+  - rewrite IH. now rewrite Z.max_r by lia.
+  - rewrite IH. now rewrite Z.max_l by lia.
+Qed.
+
+Lemma ext_min_list_glb l :
+  match l with
+  | [] => ext_min_list l = PInf
+  | _ => exists m, ext_min_list l = Fin m /\ In m l /\ forall w, In w l -> (m <= w)%Z
+  end.
+Proof.
+  destruct l as [|x l]; [reflexivity|]. unfold ext_min_list. cbn [fold_left].
+  change (ext_min PInf (Fin x)) with (Fin x). rewrite fold_min_fin.
+  destruct (fold_zmin_spec l x) as (H1 & H2 & H3).
+  eexists; split; [reflexivity|]. split.
+  - destruct H1 as [->|H1]; [now left|now right].
+  - intros w [<-|Hw]; auto.
+Qed.
+
+Lemma ext_max_list_lub l :
+  match l with
+  | [] => ext_max_list l = NInf
+  | _ => exists m, ext_max_list l = Fin m /\ In m l /\ forall w, In w l -> (w <= m)%Z
+  end.
+Proof.
+  destruct l as [|x l]; [reflexivity|]. unfold ext_max_list. cbn [fold_left].
+  change (ext_max NInf (Fin x)) with (Fin x). rewrite fold_max_fin.
+  destruct (fold_zmax_spec l x) as (H1 & H2 & H3).
+  eexists; split; [reflexivity|]. split.
+  - destruct H1 as [->|H1]; [now left|now right].
+  - intros w [<-|Hw]; auto.
+Qed.
